@@ -1561,6 +1561,20 @@ func ruleC14Queue(c *Checker) {
 	fn := fd.Parent()
 	name := p.FuncName(fn)
 	isDisable := func(in ssa.Instruction) bool {
+		// written out: the last of at least two nil stores into callback fields of the Dependencies value in one block
+		if st, ok := in.(*ssa.Store); ok && isNilConst(st.Val) {
+			if fa, ok := st.Addr.(*ssa.FieldAddr); ok && isNamedT(derefType(fa.X.Type()), "Dependencies") {
+				n := 0
+				for _, x := range st.Block().Instrs {
+					if s2, ok := x.(*ssa.Store); ok && isNilConst(s2.Val) {
+						if f2, ok := s2.Addr.(*ssa.FieldAddr); ok && isNamedT(derefType(f2.X.Type()), "Dependencies") {
+							n++
+						}
+					}
+				}
+				return n >= 2
+			}
+		}
 		cl, ok := in.(*ssa.Call)
 		if !ok {
 			return false
